@@ -94,31 +94,31 @@ def check_reader(ctx, oid="C05.2"):
     R.floor(oid, len(reps), 6, "compact_size_reader_classes")
 
 
-def check_writers_layout(ctx):
+def check_writers_layout(ctx, oid="C05.3"):
     R = ctx.R
     ev = ctx.evaluator(opaque={CS})
     # outpoint
     fi = ctx.fn("bits.tx.outpoint")
     want = tm.cat([P("txid_", tm.BYTES), le(P("index", tm.INT), 4)])
     got = ev.run(fi).value()
-    R.check("C05.3", "LAYOUT", fi, "outpoint = txid(32) || index(4 LE)", tm.veq(got, want), tm.first_diff(got, want),
+    R.check(oid, "LAYOUT", fi, "outpoint = txid(32) || index(4 LE)", tm.veq(got, want), tm.first_diff(got, want),
             expected=tm.show(want), found=tm.show(got))
     # txin
     fi = ctx.fn("bits.tx.txin")
     ss = P("script_sig", tm.BYTES)
     want = tm.cat([P("prev_outpoint", tm.BYTES), cs(tm.length(ss)), ss, P("sequence", tm.BYTES)])
     got = ev.run(fi).value()
-    R.check("C05.3", "LAYOUT", fi, "txin = outpoint || cs(len script) || script || sequence", tm.veq(got, want),
+    R.check(oid, "LAYOUT", fi, "txin = outpoint || cs(len script) || script || sequence", tm.veq(got, want),
             tm.first_diff(got, want), expected=tm.show(want), found=tm.show(got))
     ok, dv = ev.default_of(fi, "sequence")
-    R.check("C05.3", "LAYOUT", fi, "default sequence is ffffffff", ok and dv == b"\xff\xff\xff\xff",
+    R.check(oid, "LAYOUT", fi, "default sequence is ffffffff", ok and dv == b"\xff\xff\xff\xff",
             "default sequence %r" % (dv,))
     # txout
     fi = ctx.fn("bits.tx.txout")
     spk = P("script_pubkey", tm.BYTES)
     want = tm.cat([le(P("value", tm.INT), 8), cs(tm.length(spk)), spk])
     got = ev.run(fi).value()
-    R.check("C05.3", "LAYOUT", fi, "txout = value(8 LE) || cs(len spk) || spk", tm.veq(got, want),
+    R.check(oid, "LAYOUT", fi, "txout = value(8 LE) || cs(len spk) || spk", tm.veq(got, want),
             tm.first_diff(got, want), expected=tm.show(want), found=tm.show(got))
     # tx, both branches
     fi = ctx.fn("bits.tx.tx")
@@ -130,12 +130,12 @@ def check_writers_layout(ctx):
         ev.assumptions = {tm.truth(wit): mode}
         got = ev.run(fi).value()
         want = tm.cat([head] + ([b"\x00\x01"] if mode else []) + body + ([tm.join(b"", wit)] if mode else []) + [tail])
-        R.check("C05.3", "LAYOUT", fi, "tx() %s branch" % ("BIP141" if mode else "legacy"), tm.veq(got, want),
+        R.check(oid, "LAYOUT", fi, "tx() %s branch" % ("BIP141" if mode else "legacy"), tm.veq(got, want),
                 tm.first_diff(got, want), expected=tm.show(want), found=tm.show(got))
     ev.assumptions = {}
 
 
-def check_readers_layout(ctx):
+def check_readers_layout(ctx, oid="C05.3"):
     R = ctx.R
     ev = ctx.evaluator(opaque={CS, PCS})
     # txin_deser
@@ -147,7 +147,7 @@ def check_readers_layout(ctx):
             tm.slc(rest, tm.add([n, 4]), None))
     got = ev.run(fi).value()
     got_t = tuple(got) if isinstance(got, (list, tuple)) else got
-    R.check("C05.3", "TILE", fi, "txin_deser fields 32,4LE,cs,n,4 + remainder", tm.veq(tm.freeze(got_t), tm.freeze(want)),
+    R.check(oid, "TILE", fi, "txin_deser fields 32,4LE,cs,n,4 + remainder", tm.veq(tm.freeze(got_t), tm.freeze(want)),
             tm.first_diff(got_t, want), expected=tm.show(want), found=tm.show(got))
     # txout_deser
     fi = ctx.fn("bits.tx.txout_deser")
@@ -157,11 +157,11 @@ def check_readers_layout(ctx):
             tm.slc(rest, n, None))
     got = ev.run(fi).value()
     got_t = tuple(got) if isinstance(got, (list, tuple)) else got
-    R.check("C05.3", "TILE", fi, "txout_deser fields 8LE,cs,n + remainder", tm.veq(tm.freeze(got_t), tm.freeze(want)),
+    R.check(oid, "TILE", fi, "txout_deser fields 8LE,cs,n + remainder", tm.veq(tm.freeze(got_t), tm.freeze(want)),
             tm.first_diff(got_t, want), expected=tm.show(want), found=tm.show(got))
 
 
-def thread_loop(R, fi, loops, parser, what, extra_args=()):
+def thread_loop(R, fi, loops, parser, what, extra_args=(), oid="C05.3"):
     """[THREAD] a loop that calls `parser` on the running remainder, rebinds the remainder to its second result and
     appends its first result."""
     for lp in loops:
@@ -175,17 +175,17 @@ def thread_loop(R, fi, loops, parser, what, extra_args=()):
                     collected = any(tm.contains(v2, lambda s: tm.veq(s, item)) and tm.contains(
                         v2, lambda s: isinstance(s, T) and s.op == "acc" and s.args[0] == k2)
                                     for k2, v2 in lp.body.items() if k2 != var)
-                    R.check("C05.3", "THREAD", fi, what, collected,
+                    R.check(oid, "THREAD", fi, what, collected,
                             "the item parsed by %s in this loop is not collected" % parser)
                     return lp
     # report what the loops do with the parser instead
-    R.check("C05.3", "THREAD", fi, what, False,
+    R.check(oid, "THREAD", fi, what, False,
             "no loop threads the remainder through %s (each call must consume the latest remainder and rebind it)" % parser,
             example="a transaction with two or more of these elements")
     return None
 
 
-def check_tx_deser(ctx):
+def check_tx_deser(ctx, oid="C05.3"):
     R = ctx.R
     fi = ctx.fn("bits.tx.tx_deser")
     opaque = {CS, PCS, "bits.tx.txin_deser", "bits.tx.txout_deser", "bits.script.utils.decode_script", "bits.tx.tx",
@@ -199,36 +199,36 @@ def check_tx_deser(ctx):
         ev.assumptions = {segcond: seg}
         s = ev.run(fi)
         mode = "segwit" if seg else "legacy"
-        R.check("C05.3", "THREAD", fi, "%s: segwit detection on zero input count + non-empty rest" % mode,
+        R.check(oid, "THREAD", fi, "%s: segwit detection on zero input count + non-empty rest" % mode,
                 not any(tm.contains(e.value, lambda t: tm.veq(t, segcond)) for e in s.returns()),
                 "segwit detection is not `input count == 0 and data follows`")
-        lin = thread_loop(R, fi, s.loops, "bits.tx.txin_deser", "%s: inputs threaded through txin_deser" % mode)
-        lout = thread_loop(R, fi, s.loops, "bits.tx.txout_deser", "%s: outputs threaded through txout_deser" % mode)
+        lin = thread_loop(R, fi, s.loops, "bits.tx.txin_deser", "%s: inputs threaded through txin_deser" % mode, oid=oid)
+        lout = thread_loop(R, fi, s.loops, "bits.tx.txout_deser", "%s: outputs threaded through txout_deser" % mode, oid=oid)
         if seg:
             lw = thread_loop(R, fi, s.loops, "bits.script.utils.decode_script",
                              "segwit: witness stacks threaded through decode_script(witness=True)", extra_args=(True, False))
             if lw is not None:
                 # one stack per input
                 it = lw.iter
-                R.check("C05.3", "THREAD", fi, "segwit: one witness stack per input",
+                R.check(oid, "THREAD", fi, "segwit: one witness stack per input",
                         isinstance(it, T) and it.op == "range" and isinstance(it.args[1], T) and it.args[1].op == "len"
                         and "bits.tx.txin_deser" in tm.show(it.args[1]) and "txout_deser" not in tm.show(it.args[1].args[0])[:400],
                         "witness loop does not iterate len(inputs) times: %s" % tm.show(it))
             if seg:
                 raises = [e for e in s.raises() if e.exc == "AssertionError"]
                 want_flag = tm.cmp("ne", tm.idx(r0, 0), 1)
-                R.check("C05.3", "DOM", fi, "segwit: flag byte must be 1",
+                R.check(oid, "DOM", fi, "segwit: flag byte must be 1",
                         any(any(tm.veq(g, want_flag) for g in e.guard) for e in raises),
                         "no rejection of a BIP141 flag other than 01")
         if lin is not None and lout is not None:
             # input count source: legacy -> first cs; segwit -> cs after marker+flag
             cnt_in = lin.iter.args[1] if isinstance(lin.iter, T) and lin.iter.op == "range" else None
             want_cnt = pcs(tm.slc(r0, 1, None), 0) if seg else n0
-            R.check("C05.3", "THREAD", fi, "%s: input count" % mode, tm.veq(cnt_in, want_cnt),
+            R.check(oid, "THREAD", fi, "%s: input count" % mode, tm.veq(cnt_in, want_cnt),
                     "input loop bound: %s" % tm.first_diff(cnt_in, want_cnt))
             start_in = lin.init.get(_remvar(lin, "bits.tx.txin_deser"))
             want_start = pcs(tm.slc(r0, 1, None), 1) if seg else r0
-            R.check("C05.3", "THREAD", fi, "%s: inputs start after the count" % mode, tm.veq(start_in, want_start),
+            R.check(oid, "THREAD", fi, "%s: inputs start after the count" % mode, tm.veq(start_in, want_start),
                     "first input parsed from: %s" % tm.first_diff(start_in, want_start))
             # outputs start from the remainder after inputs, via a cs count parsed from it
             rem_after_in = s_env_after(lin, "bits.tx.txin_deser")
@@ -236,34 +236,34 @@ def check_tx_deser(ctx):
             ok = isinstance(cnt_out, T) and match(T("proj", (tm.app(PCS, [W("r")], ty=tm.TUPLE), 0)), cnt_out) is not None
             src = match(T("proj", (tm.app(PCS, [W("r")], ty=tm.TUPLE), 0)), cnt_out) if ok else None
             ok2 = bool(src) and isinstance(src["r"], T) and src["r"].op == "fold" and "txin_deser" in tm.show(src["r"])
-            R.check("C05.3", "THREAD", fi, "%s: output count parsed from the remainder after the inputs" % mode, ok and ok2,
+            R.check(oid, "THREAD", fi, "%s: output count parsed from the remainder after the inputs" % mode, ok and ok2,
                     "output count comes from %s" % tm.show(cnt_out)[:300],
                     example="a transaction whose inputs are followed by outputs (stale buffer reuse)")
             start_out = lout.init.get(_remvar(lout, "bits.tx.txout_deser"))
             ok3 = bool(src) and tm.veq(start_out, T("proj", (tm.app(PCS, [src["r"]], ty=tm.TUPLE), 1)))
-            R.check("C05.3", "THREAD", fi, "%s: outputs start after their count" % mode, ok3,
+            R.check(oid, "THREAD", fi, "%s: outputs start after their count" % mode, ok3,
                     "first output parsed from %s" % tm.show(start_out)[:300])
         # version / locktime / leftover
         ret = s.returns()[-1].value if s.returns() else None
         rt = tuple(ret) if isinstance(ret, (list, tuple)) else None
-        R.check("C05.3", "TILE", fi, "%s: returns (dict, leftover)" % mode, rt is not None and len(rt) == 2,
+        R.check(oid, "TILE", fi, "%s: returns (dict, leftover)" % mode, rt is not None and len(rt) == 2,
                 "tx_deser does not return a pair")
         if rt:
             d, left = rt
             ver = rules.dict_get(d, "version")
-            R.check("C05.3", "TILE", fi, "%s: version = first 4 bytes LE" % mode,
+            R.check(oid, "TILE", fi, "%s: version = first 4 bytes LE" % mode,
                     tm.veq(ver, tm.b2i(tm.slc(buf, None, 4), "little")), "version: %s" % tm.show(ver)[:200])
             lt = rules.dict_get(d, "locktime")
             m = match(tm.b2i(T("slice", (W("rem"), None, 4), tm.BYTES), "little"), lt) or \
                 match(tm.b2i(T("slice", (W("rem"), None, 4), tm.ANY), "little"), lt)
-            R.check("C05.3", "TILE", fi, "%s: locktime = 4 bytes LE at the remainder" % mode, m is not None,
+            R.check(oid, "TILE", fi, "%s: locktime = 4 bytes LE at the remainder" % mode, m is not None,
                     "locktime: %s" % tm.show(lt)[:200])
             if m:
                 want_left = tm.slc(m["rem"], 4, None)
-                R.check("C05.3", "TILE", fi, "%s: leftover = remainder after locktime" % mode, tm.veq(left, want_left),
+                R.check(oid, "TILE", fi, "%s: leftover = remainder after locktime" % mode, tm.veq(left, want_left),
                         "leftover: %s" % tm.first_diff(left, want_left))
                 last = "decode_script" if seg else "txout_deser"
-                R.check("C05.3", "THREAD", fi, "%s: locktime read from the remainder after the last %s" % (mode, last),
+                R.check(oid, "THREAD", fi, "%s: locktime read from the remainder after the last %s" % (mode, last),
                         isinstance(m["rem"], T) and m["rem"].op == "fold" and last in tm.show(m["rem"].args[1]),
                         "locktime read from %s" % tm.show(m["rem"])[:200])
     ev.assumptions = {}
